@@ -33,7 +33,11 @@ pub fn gen_unknown(rng: &mut Rng, n_events_hint: usize, max_codes: u64) -> Vec<U
             2 => 1 + rng.below(600) as u16,
             _ => *rng.pick(&[4u16, 58, 63, 516, 517]),
         };
-        let ninst = if many_codes {
+        // declared sizes at the edges of what 16 bits can say (the event need not even occur)
+        let (size, edge) = if rng.chance(1, 15) { (*rng.pick(&[65535u16, 65534, 32768, 32767, 256, 255, 4096]), true) } else { (size, false) };
+        let ninst = if edge {
+            rng.below(3) as usize
+        } else if many_codes {
             rng.below(3) as usize
         } else if rng.chance(1, 5) {
             0
